@@ -1,5 +1,6 @@
 import inspect
 import warnings
+from threading import get_ident
 from typing import Any, Callable, Dict, List, Tuple, Union
 
 from tawazi._helpers import StrictDict
@@ -121,4 +122,8 @@ def threadsafe_make_dag(
     Thread safe and cleans after itself.
     """
     with node.exec_nodes_lock:
-        return wrap_make_dag(_func, max_concurrency, is_async)
+        node.describing_thread = get_ident()
+        try:
+            return wrap_make_dag(_func, max_concurrency, is_async)
+        finally:
+            node.describing_thread = None
